@@ -64,11 +64,32 @@ def load_ref():
     return units, cc
 
 
-def model_sig(X, c):
+def rm_code(X, c, is_mem):
+    """Size letter of the ModRM r/m operand of a row variant, from the size statements of _dis evaluated under both operand sizes
+    (b/w/d/q/t fixed, v = follows the operand size); None when _dis rejects that form."""
+    a = X.afs
+    s32, s16 = X.dis_rm_size(c, is_mem, a.u32), X.dis_rm_size(c, is_mem, a.u16)
+    if s32 == 'rejected' or s16 == 'rejected':
+        return None
+    if s32 != s16:
+        if (s32, s16) == (a.u32, a.u16):
+            return 'v'
+        raise AnalysisError('_dis gives the r/m operand of %s sizes %r / %r under 32- / 16-bit operand size' % (c.row.key(), s32, s16))
+    return {a.u08: 'b', a.u16: 'w', a.u32: 'd', a.f32: 'd', a.f64: 'q', a.f80: 't'}[s32]
+
+
+def model_sig(X, c, is_mem=True):
     """Operand signature of a trie cell in the vocabulary of the ref, following the operand construction of x86_mn._dis:
     ModRM operands [G, E] (reversed under sw), accumulator inserted in front (behind under sw), then the remaining
-    descriptors in table order."""
+    descriptors in table order.  The size of the r/m operand is what the size statements of _dis compute for the memory
+    (is_mem) or the register form; None when _dis rejects the form."""
     E = X.env
+    if (isinstance(c.row.afs, int) or E['rmr'] in c.row.rm) and not c.modifs.get(E['mmx']):
+        rc = rm_code(X, c, is_mem)
+        if rc is None:
+            return None
+    else:
+        rc = None
     m, row, rm = c.modifs, c.row, c.row.rm
     g = lambda k: m.get(E[k])
     w8, se, sw, sd_, wd_ = g('w8'), g('se'), g('sw'), g('sd'), g('wd')
@@ -87,7 +108,7 @@ def model_sig(X, c):
             s = 'b'
         if wd_:
             s = 'w'
-        args = ['E' + s]
+        args = [('E' if is_mem else 'R') + (rc or s)]
     elif row.afs == E['reg']:
         args = ['STi' if x87 else ('Zb' if w8 else 'Zv')]
     elif rmr in rm:
@@ -103,9 +124,10 @@ def model_sig(X, c):
             G = 'Cd'
         elif g('dr'):
             G = 'Dd'
-        args = [G, 'E' + es]
+        ecode = ('E' if is_mem else 'R') + (rc or es)
+        args = [G, ecode]
         if row.afs == E['cond'] and row.name.startswith('set'):
-            args = ['E' + es]
+            args = [ecode]
     if sw:
         args.reverse()
     out = []
@@ -154,13 +176,20 @@ def model_sig(X, c):
 
 
 def tok_match(mt, alts):
+    """model token against the alternatives of a ref token.  The model names the r/m operand E<size> for the memory form and
+    R<size> for the register form; the ref's E<size> stands for both, M / M<size> for the memory form, R<size> for the register form."""
     for r in alts:
         if r == mt:
             return True
-        if r == 'M' and mt[0] == 'E':
-            return True
-        if len(r) == 2 and r[0] == 'M' and mt == 'E' + r[1]:
-            return True
+        if mt[0] == 'E' and len(mt) == 2:
+            if r == 'M' or (len(r) == 2 and r[0] == 'M' and r[1] == mt[1]):
+                return True
+        if mt[0] == 'R' and len(mt) == 2:
+            if len(r) == 2 and r[0] == 'E' and r[1] == mt[1]:
+                return True
+            if r == 'M' or (len(r) == 2 and r[0] == 'M'):
+                # the register encodings of a memory-only unit are judged by C01.D7
+                return True
     return False
 
 
@@ -263,9 +292,20 @@ def run(ctx, report):
                     bad.append('condition code %X is named %r, IA-32 names it %s' % (ccn, name, '/'.join(okn)))
             elif name not in ent['names']:
                 bad.append('mnemonic %r, IA-32: %s' % (name, '/'.join(ent['names'])))
-            msig = model_sig(X, c)
-            if not sig_match(msig, ent['sigs']):
+            msig = model_sig(X, c, True)
+            if msig is not None and not sig_match(msig, ent['sigs']):
                 bad.append('operands %s, IA-32: %s' % (','.join(msig) or '-', fmt_sigs(ent['sigs'])))
+            # the register form (mod == 3), when the decoder accepts it for this row (for /digit rows: when the row owns mod == 3 cells)
+            rsig = None
+            if isinstance(c.row.afs, int):
+                if any(p_[-1] >= 0xC0 for p_, cc_ in X.cells.items() if cc_.row is c.row and cc_.opc == c.opc):
+                    rsig = model_sig(X, c, False)
+            elif E['rmr'] in c.row.rm:
+                rsig = model_sig(X, c, False)
+            if rsig is not None and not sig_match(rsig, ent['sigs']):
+                bad.append('operands of the register form (mod = 3) %s, IA-32: %s' % (','.join(rsig) or '-', fmt_sigs(ent['sigs'])))
+            if msig is None:
+                msig = rsig or []
             if bad:
                 R1.violation(inst, 'unit:%s:%s' % (kstr, name), 'table row %s decodes %s as %s %s -- %s (ref line %d)'
                              % (c.row.key(), kstr, name, ','.join(msig) or '', '; '.join(bad), ent['line']), loc)
@@ -819,6 +859,32 @@ def run(ctx, report):
                 else:
                     R8.ok(inst, sample='%s -> segments %s' % (inst, [afs.reg_sg[o[afs.segm]] for o in ops]))
 
+    # ---------------------------------------------------------------- D10 size-suffixed mnemonics follow the operand size
+    R10 = report.rule('C01.D10', 'operand-less instructions named by their operand size (movsd/movsw, insd/insw, pushfd/pushfw, ...) take the 16-bit name under a 16-bit operand size', floor=9)
+    for key in sorted(U, key=lambda k: (k[0], k[1])):
+        ent = ref.get(key)
+        if ent is None or ent['kind'] != 'int' or key[1]:
+            continue
+        pairs = [(n, w) for n in ent['names'] for w in ent['names'] if n != w and ((n[-1] == 'd' and w == n[:-1] + 'w') or w == n + 'w')]
+        if not pairs:
+            continue
+        kstr = ' '.join('%02X' % b for b in key[0])
+        names32 = set(c.name for c in U[key])
+        for n32, n16 in pairs:
+            if n32 not in names32:
+                continue
+            c = [c_ for c_ in U[key] if c_.name == n32][0]
+            got16, pfx16 = SO.decoded_name(X, n32, afs.u16, [0x66], c.modifs)
+            got32, _ = SO.decoded_name(X, n32, afs.u32, [], c.modifs)
+            inst = '%s %s' % (kstr, n32)
+            if got32 != n32:
+                R10.violation(inst, 'size-name:%s:32' % n32, '%s (%s) is renamed %r by special_opcodes under the 32-bit operand size' % (kstr, n32, got32), where(arch, c.row.node))
+            elif got16 != n16:
+                R10.violation(inst, 'size-name:%s:16' % n32, '66 %s is reported as %r; under the 16-bit operand size IA-32 names it %s (ref line %d)' % (kstr, got16, n16, ent['line']),
+                              where(arch, arch.method('x86_mn', 'special_opcodes')), witness='dis(66 6d) is insw')
+            else:
+                R10.ok(inst, sample='%s: %s, with 66: %s' % (kstr, n32, n16))
+
     # ---------------------------------------------------------------- D9 a decode cannot change what the next decode returns
     R9 = report.rule('C01.D9', 'operands handed to a decoded instruction are objects created by that decode (never a shared table entry)', floor=8)
     from .c12 import operand_ownership_rule
@@ -826,6 +892,10 @@ def run(ctx, report):
 
 
 MUTANTS = [
+    ('pushaw-not-renamed', 'miasmx/arch/ia32_arch.py', "                'pushad': x86mndb.pushaw_m, 'popad': x86mndb.popaw_m,\n", "                'popad': x86mndb.popaw_m,\n", 'C01.D10'),
+    ('ins-unsized', 'miasmx/arch/ia32_arch.py', 'addop("insd",  [0x6D],', 'addop("ins",   [0x6D],', 'C01.D1'),
+    ('mem16-digit-dropped', 'miasmx/arch/ia32_arch.py', "                if m.name in mnemo_mem16 and modr[x86_afs.ad]:\n                    mnemo_args[-1][x86_afs.size] = x86_afs.u16\n", "", 'C01.D1'),
+    ('mem16-sreg-dropped', 'miasmx/arch/ia32_arch.py', "                            (m.modifs[sg] or m.name in mnemo_mem16):", "                            (m.name in mnemo_mem16):", 'C01.D1'),
     ('undefined-sse-accepted', 'miasmx/arch/ia32_arch.py', "                if mmx_undefined_form(m, sse_prefix):\n                    return None\n", "", 'C01.D1'),
     ('string-src-ds', 'miasmx/arch/ia32_arch.py', "    for p in prefix:\n        if p in prefix_seg_inv:\n            segm = prefix_seg_inv[p]\n    return segm", "    return segm", 'C01.D8'),
     ('memonly-lea-reg', 'miasmx/arch/ia32_arch.py', "                  'lea', 'lds', 'les', 'lss', 'lfs', 'lgs', 'bound',", "                  'lds', 'les', 'lss', 'lfs', 'lgs', 'bound',", 'C01.D7'),
